@@ -75,12 +75,12 @@ PROPS = {
         ],
     ),
     'C11': dict(
-        verus=['varint_pbf', 'vector_tile_tables', 'vector_tile_feature'],
+        verus=['varint_pbf', 'vector_tile_tables', 'vector_tile_feature', 'vector_tile_layer'],
         kani=[],
         not_decided=[
             'the operation itself (vectortiles_update_properties::run, filter_map_properties): iterator adapters and closures over iter_mut',
             'only-the-named-layer-changes, CSV join semantics, value typing (GeoValue)',
-            'encode_tag_ids / decode_tag_ids (iterate a BTreeMap-backed type), VectorTileLayer::read / to_blob framing',
+            'encode_tag_ids / decode_tag_ids (iterate a BTreeMap-backed type), VectorTileLayer::to_blob framing, GeoValue typing',
             'feature decoder correctness beyond totality (to_blob is proved against the MVT wire layout; read is proved total, the composition read(to_blob(f)) = f is not)',
             'round trip lemma dec(enc(v)) = v for varints is stated per direction (encoder = LEB128 spec, decoder = 7-bit group rule), not composed',
         ],
@@ -94,11 +94,11 @@ PROPS = {
         ],
     ),
     'C19': dict(
-        verus=['varint_pbf', 'pmtiles_dir', 'filters', 'converter', 'vector_tile_tables', 'pmtiles_reader', 'vector_tile_feature', 'convert_cli', 'versatiles_reader', 'tile_index'],
+        verus=['varint_pbf', 'pmtiles_dir', 'filters', 'converter', 'vector_tile_tables', 'pmtiles_reader', 'vector_tile_feature', 'convert_cli', 'versatiles_reader', 'tile_index', 'vector_tile_layer'],
         kani=['pmtiles_codec', 'versatiles_codec', 'geo'],
         not_decided=[
             'JSON / TileJSON / CSV / VPL text parsers (String, nom, core::fmt: outside both verifiers; Kani probes timed out)',
-            'vector tile layer/feature decoding above the PBF primitives', 'MBTiles / tar / directory opening', 'stack depth of the recursive JSON parser',
+            'GeoValue decoding, VectorTile::from_blob (top-level loop; same shape as the verified layer loop)', 'MBTiles / tar / directory opening', 'stack depth of the recursive JSON parser',
         ],
     ),
     'C20': dict(
